@@ -10,7 +10,7 @@ func init() {
 	register(&propDef{
 		id: "C48", title: "The TTL map behaves like a map with per-key expiry",
 		technique: "guard dominance on the CFG (value returned only on the not-expired edge; eviction/compaction touch a key only when the index still maps it to that slot), dataflow of the expiry stamp, lockset with caller-holds helpers",
-		explanation: "Decides: (1) Get returns (value, true) only on the edge now < expireAt of the entry the index maps the key to, and unmaps the key on the expired edge; a missing key yields the zero value and false; (2) Set stamps expireAt = now + ttl on both the refresh and the insert edge, and on insert maps the key to the slot it appends; (3) Delete unmaps the key; Reset empties the index and the slot slice and resets head; (4) evict unmaps a key only when the index maps it to the slot being evicted (a key re-inserted later at another slot is left alone) and only for slots whose expiry has passed; maybeCompact keeps a slot only when the index maps its key to that very slot and re-indexes every kept slot afterwards; (5) every field is accessed under the map's mutex; evict and maybeCompact are called only with it held. The index/slot agreement invariant over operation histories is not decided.",
+		explanation: "Decides: (1) Get returns (value, true) only on the edge now < expireAt of the entry the index maps the key to, and unmaps the key on the expired edge; a missing key yields the zero value and false; (2) Set stamps expireAt = now + ttl on both the refresh and the insert edge, and on insert maps the key to the slot it appends; (3) Delete unmaps the key; Reset empties the index and the slot slice and resets head; (4) evict unmaps a key only when the index maps it to the slot being evicted (a key re-inserted later at another slot is left alone) and only for slots whose expiry has passed; maybeCompact keeps a slot only when the index maps its key to that very slot and re-indexes every kept slot afterwards; (5) every field is accessed under the map's mutex; evict and maybeCompact are called only with it held. The index/slot agreement invariant over operation histories is not decided. Added after the probe round: compaction's bulk move is taken only over the edge 'mapped keys == size of the live region'; after compaction each surviving key is re-mapped to exactly its new slot (items[order[i].key] = i).",
 		assumptions: []string{"the invariant 'every mapped index is ≥ head and points at the key's newest slot' over histories (needed for compaction's fast path)", "monotonic clock"},
 		minObl:     20,
 		run:        runC48,
@@ -256,6 +256,45 @@ func runC48(c *Ctx) {
 		})
 		w = mf.search(searchSpec{avoidEdges: own, target: keep})
 		c.Check(w == nil && len(own) > 0, "compact/keeps-only-mapped-slots", "compaction keeps a slot only when the index maps its key to that very slot", c.P.Pos(mc.Decl.Pos()), mf.describe(w))
+		// the bulk move is valid only when the live region has no holes: it is taken only over the edge on which the
+		// number of mapped keys EQUALS the size of the live region
+		bulk := func(n ast.Node) bool {
+			call, ok := n.(*ast.CallExpr)
+			if !ok || len(call.Args) != 2 {
+				return false
+			}
+			id, ok := call.Fun.(*ast.Ident)
+			return ok && id.Name == "copy" && selField(minfo, call.Args[0]) == order
+		}
+		noHoles := mf.FactEdges(func(cm cmp) bool {
+			return cm.Op == token.EQL && exprShape(minfo, cm.L) == "len(.items)" && exprShape(minfo, cm.R) == "len(.order)-.head"
+		})
+		if len(mf.Find(bulk)) > 0 {
+			c.guardedBy(mf, noHoles, bulk, "compact/bulk-move-only-without-holes", "the whole live region is moved in one piece only when every slot of it is still mapped (item count equals region size)", c.P.Pos(mc.Decl.Pos()))
+		}
+		// after compaction every surviving key is mapped to its new position: items[order[i].key] = i
+		okRe := false
+		ast.Inspect(mc.Decl.Body, func(n ast.Node) bool {
+			rng, ok := n.(*ast.RangeStmt)
+			if !ok || selField(minfo, rng.X) != order || rng.Key == nil {
+				return true
+			}
+			kobj := minfo.ObjectOf(rng.Key.(*ast.Ident))
+			for _, st := range rng.Body.List {
+				if key, val, ok := isMapWrite(minfo, st, items); ok {
+					kshape := exprShape(minfo, key)
+					if objOf(minfo, val) == kobj && kshape == ".key" {
+						if sel, ok := ast.Unparen(key).(*ast.SelectorExpr); ok {
+							if ix, ok := ast.Unparen(sel.X).(*ast.IndexExpr); ok && selField(minfo, ix.X) == order && objOf(minfo, ix.Index) == kobj {
+								okRe = true
+							}
+						}
+					}
+				}
+			}
+			return true
+		})
+		c.Check(okRe, "compact/reindex=position", "after compaction each surviving key is mapped to exactly its new slot: items[order[i].key] = i", c.P.Pos(mc.Decl.Pos()), "the re-index loop does not write items[order[i].key] = i")
 		reidx := func(n ast.Node) bool { _, _, ok := isMapWrite(minfo, n, items); return ok }
 		hd0 := func(n ast.Node) bool {
 			as, ok := n.(*ast.AssignStmt)
